@@ -17,6 +17,8 @@ import (
 	"fmt"
 	"io"
 	"net"
+	"runtime"
+	"strings"
 	"sync"
 	"testing"
 	"time"
@@ -29,9 +31,10 @@ import (
 
 func TestVerifC18PipelineDeadline(t *testing.T) {
 	st := vstat.New("C18", "pipeline.deadline",
-		"rapid cases on one connection to a real ServerDNS (TCP) or ServerTLS with MaxPipelineCount 1..4 and a request-context deadline of 30/50/80 ms: a first wave of 1..limit+4 queries, an optional second wave of 1..4 queries sent a drawn fraction of the deadline later, a context-ignoring handler that holds every query either briefly or for 1.3-2.5 deadlines, before it answers or after it has answered while it is still running (in work = handler entry to handler return); non-trivial = the pipeline was full with a backlog for longer than the deadline; distinct by (transport, limit, deadline, waves, gap, hold)",
+		"rapid cases on one connection to a real ServerDNS (TCP) or ServerTLS with MaxPipelineCount 1..4 and a request-context deadline of 30/50/80 ms: a first wave of 1..limit+4 queries, an optional second wave of 1..4 queries sent a drawn fraction of the deadline later, a context-ignoring handler that holds every query either briefly or for 1.3-2.5 deadlines, before it answers or after it has answered while it is still running (in work = handler entry to handler return); in a third of the cases a connection limiter (stop 1) is in front and a second client waits for the slot; after everything is let go the server must either serve all queries sent or, having given one up at its deadline, close the connection (bound 10 s; a still-open connection is a violation only if the goroutine dump shows its serving goroutine parked on the connection's wait group with no query being served, otherwise inconclusive), after which the waiting client is accepted; non-trivial = the pipeline was full with a backlog for longer than the deadline; distinct by (transport, limit, deadline, waves, gap, hold)",
 		"pipeline-full-beyond-request-deadline", "second-wave-while-full", "released-before-deadline", "tcp", "tls",
-		"handler-still-running-after-its-response-was-written-with-pipeline-full")
+		"handler-still-running-after-its-response-was-written-with-pipeline-full",
+		"pipelined-message-given-up-at-deadline-then-connection-closed", "behind-connection-limiter", "waiting-accept-proceeded-after-release")
 	st.Finish(t)
 
 	env := &vc18pEnv{
@@ -39,11 +42,7 @@ func TestVerifC18PipelineDeadline(t *testing.T) {
 		tlsConf: dnsservertest.CreateServerTLSConfig(vc18pTLSName),
 		srvs:    map[string]*vc18pSrv{},
 	}
-	t.Cleanup(func() {
-		for _, stop := range env.stops {
-			stop()
-		}
-	})
+	t.Cleanup(env.stopAll)
 
 	rapid.Check(t, func(t *rapid.T) { vc18pDeadlineCase(t, st, env) })
 }
@@ -63,7 +62,8 @@ func vc18pDeadlineCase(t *rapid.T, st *vstat.Stats, env *vc18pEnv) {
 
 	desc := fmt.Sprintf("tls=%t limit=%d deadline=%s wave1=%d wave2=%d gap=%d%% hold=%d%% handler=%s", useTLS, limit, deadline, wave1, wave2, gapPct, holdPct, vc18pShapeNames[shape])
 
-	srv, err := env.server(useTLS, limit, deadline)
+	limited := rapid.IntRange(0, 2).Draw(t, "connLimiter") == 0
+	srv, err := env.serverLimited(useTLS, limit, deadline, limited)
 	if err != nil {
 		vc18pInconclusive(t, "starting server: %v", err)
 	}
@@ -154,6 +154,7 @@ func vc18pDeadlineCase(t *rapid.T, st *vstat.Stats, env *vc18pEnv) {
 		}
 	}()
 
+	sent := 0
 	send := func(from, n int) {
 		var wire []byte
 		for i := from; i < from+n; i++ {
@@ -171,11 +172,13 @@ func vc18pDeadlineCase(t *rapid.T, st *vstat.Stats, env *vc18pEnv) {
 		// The server may already have wound the connection down; that is
 		// not judged.
 		_ = conn.SetWriteDeadline(time.Now().Add(vc18pWait))
-		_, _ = conn.Write(wire)
+		if _, werr := conn.Write(wire); werr == nil {
+			sent += n
+		}
 	}
 
 	// state fails on the bound; it is the only verdict besides duplicates.
-	state := func() (entered, inflight int) {
+	state3 := func() (entered, inflight, left int) {
 		c.mu.Lock()
 		defer c.mu.Unlock()
 
@@ -187,7 +190,13 @@ func vc18pDeadlineCase(t *rapid.T, st *vstat.Stats, env *vc18pEnv) {
 			t.Fatalf("harness: queries of one connection seen from several remote addresses: %v", c.remotes)
 		}
 
-		return c.entered, c.inflight
+		return c.entered, c.inflight, c.left
+	}
+
+	state := func() (entered, inflight int) {
+		e, i, _ := state3()
+
+		return e, i
 	}
 
 	// watch observes for d; waiting never decides anything by itself.
@@ -240,6 +249,46 @@ func vc18pDeadlineCase(t *rapid.T, st *vstat.Stats, env *vc18pEnv) {
 	filled := softWait(min(wave1, limit), 2*time.Second)
 	fullAt := time.Now()
 
+	// Behind a connection limiter with stop 1 another client can only be
+	// accepted once this connection has been released.
+	var probeRaw net.Conn
+	probeDone := make(chan bool, 1)
+	if limited {
+		classes = append(classes, "behind-connection-limiter")
+		probeRaw, err = d.Dial("tcp", srv.addr)
+		if err != nil {
+			vc18pInconclusive(t, "%s: probe dial: %v", desc, err)
+		}
+
+		defer func() { _ = probeRaw.Close() }()
+
+		go func() {
+			pc := probeRaw
+			if useTLS {
+				pc = tls.Client(probeRaw, env.tlsConf)
+			}
+
+			m := (&dns.Msg{}).SetQuestion(fmt.Sprintf("probe.p%d.c18.test.", id), dns.TypeA)
+			b, _ := m.Pack()
+			wire := binary.BigEndian.AppendUint16(nil, uint16(len(b)))
+			if _, werr := pc.Write(append(wire, b...)); werr != nil {
+				probeDone <- false
+
+				return
+			}
+
+			var l uint16
+			if binary.Read(pc, binary.BigEndian, &l) != nil {
+				probeDone <- false
+
+				return
+			}
+
+			_, rerr := io.CopyN(io.Discard, pc, int64(l))
+			probeDone <- rerr == nil
+		}()
+	}
+
 	if holdPct == 0 {
 		// Everything is let go at once; with luck nothing expires.
 		classes = append(classes, "released-before-deadline")
@@ -281,17 +330,83 @@ func vc18pDeadlineCase(t *rapid.T, st *vstat.Stats, env *vc18pEnv) {
 		watch(10 * time.Millisecond)
 	}
 
-	// Collect what is answered, briefly; then end the connection.
-	select {
-	case <-readDone:
+	// Everything has been let go.  Either the server gets through all
+	// queries that were sent, or it has given one up at its deadline while the
+	// pipeline was full; then it must end the connection as soon as the
+	// running queries are done, which they are.
+	const bound = 10 * time.Second
+	outcome := ""
+	for end := time.Now().Add(bound); outcome == ""; {
+		entered, _, left := state3()
+		switch {
+		case entered >= sent && left >= sent:
+			outcome = "all-served"
+		case time.Now().After(end):
+			outcome = "stuck"
+		default:
+			select {
+			case <-readDone:
+				outcome = "server-closed"
+			case <-c.changed:
+			case <-time.After(2 * time.Millisecond):
+			}
+		}
+	}
+
+	entered, inflight, left := state3()
+	switch outcome {
+	case "server-closed":
 		classes = append(classes, "server-ended-connection")
-	case <-time.After(15 * time.Millisecond):
+		if entered < sent && left == entered {
+			classes = append(classes, "pipelined-message-given-up-at-deadline-then-connection-closed")
+		}
+	case "all-served":
+		// Collect the answers, briefly.
+		select {
+		case <-readDone:
+			classes = append(classes, "server-ended-connection")
+		case <-time.After(15 * time.Millisecond):
+		}
+	default:
+		if inflight != 0 || left != entered {
+			vc18pInconclusive(t, "%s: %d of %d entered queries still in the handler %s after they were let go", desc, entered-left, entered, bound)
+		}
+
+		// Every handler of the connection has returned, the deadline of the
+		// queries that were not served passed long ago, and the connection
+		// is still open.  Proof that it stays so: its serving goroutine waits
+		// for the connection's wait group while no query is being served.
+		if proof, ok := vc18pConnNeverClosed(); ok {
+			t.Fatalf("%s: connection never released after a pipelined message was given up at its deadline: %d of %d queries sent entered the handler and all of them returned, %s later the server has neither served the rest nor closed the connection: %s",
+				desc, entered, sent, bound, proof)
+		}
+
+		vc18pInconclusive(t, "%s: %d of %d queries served, connection still open after %s, no proof of a stuck connection in the goroutine dump", desc, entered, sent, bound)
 	}
 
 	state()
 	_ = conn.Close()
 	<-readDone
 	state()
+
+	// The connection has been released, so the accept that waited for its
+	// slot proceeds and the probe is answered.
+	if limited {
+		select {
+		case ok := <-probeDone:
+			if ok {
+				classes = append(classes, "waiting-accept-proceeded-after-release")
+			} else {
+				classes = append(classes, "probe-failed")
+			}
+		case <-time.After(bound):
+			if proof, ok := vc18pAcceptNeverProceeds(); ok {
+				t.Fatalf("%s: the connection was closed by both sides, but the accept waiting for its slot in the connection limiter does not proceed %s later: %s", desc, bound, proof)
+			}
+
+			vc18pInconclusive(t, "%s: probe not answered %s after the connection was closed", desc, bound)
+		}
+	}
 
 	gotMu.Lock()
 	answered := 0
@@ -336,4 +451,56 @@ func vc18pDeadlineCase(t *rapid.T, st *vstat.Stats, env *vc18pEnv) {
 		st.Sample(map[string]any{"tls": useTLS, "limit": limit, "deadline_ms": deadline.Milliseconds(), "wave1": wave1, "wave2": wave2,
 			"gap_pct": gapPct, "hold_pct": holdPct, "answered": answered})
 	}
+}
+
+// vc18pConnNeverClosed reports whether the goroutine dump proves that a TCP
+// connection of a server can never be closed: its serving goroutine is parked
+// in the wait for the connection's queries while no query of any connection is
+// being served.  The test runs one case at a time and every handler of the
+// case has returned, so nothing is left that could end that wait.
+func vc18pConnNeverClosed() (proof string, ok bool) {
+	buf := make([]byte, 8<<20)
+	buf = buf[:runtime.Stack(buf, true)]
+	stuck, workers := 0, 0
+	var sample string
+	for _, g := range strings.Split(string(buf), "\n\n") {
+		switch {
+		case strings.Contains(g, ".serveTCPMessage(") || strings.Contains(g, ".acceptTCPMsg.func"):
+			workers++
+		case strings.Contains(g, ".serveTCPConn") && strings.Contains(g, "sync.(*WaitGroup).Wait"):
+			stuck++
+			sample = g
+		}
+	}
+
+	if stuck > 0 && workers == 0 {
+		return fmt.Sprintf("%d connection(s) whose serving goroutine waits for queries that do not exist, e.g.\n%s", stuck, sample), true
+	}
+
+	return "", false
+}
+
+// vc18pAcceptNeverProceeds reports whether the goroutine dump proves that an
+// accept is parked in the connection limiter while no connection is being
+// served or closed any more.
+func vc18pAcceptNeverProceeds() (proof string, ok bool) {
+	buf := make([]byte, 8<<20)
+	buf = buf[:runtime.Stack(buf, true)]
+	parked, busy := 0, 0
+	var sample string
+	for _, g := range strings.Split(string(buf), "\n\n") {
+		switch {
+		case strings.Contains(g, ".serveTCPConn") || strings.Contains(g, "connlimiter.(*limitConn)"):
+			busy++
+		case strings.Contains(g, "connlimiter.(*limitListener)") && strings.Contains(g, "sync.(*Cond).Wait"):
+			parked++
+			sample = g
+		}
+	}
+
+	if parked > 0 && busy == 0 {
+		return fmt.Sprintf("%d accept(s) parked in the limiter with no connection open, e.g.\n%s", parked, sample), true
+	}
+
+	return "", false
 }
